@@ -136,6 +136,17 @@ def index_probes():
                         return [i, arr_]
                     return [i]
                 out.append(('index:%s:%s:%s%s' % (el, form, stg, '' if ixf == 'i' else ':' + ixf), src, mk))
+    # arrays whose length sits at the byte boundary (255 / 256 elements), index of static type byte or int
+    for el, zero_, show in (('int', '0', 'write(%s);'), ('byte', "'\\0'", 'write(%s is int);'), ('bool', 'false', 'write(%s);')):
+        for n in (255, 256):
+            for ixf in ('i', 'bi', '(i is byte)', 'bidx[0]'):
+                for form in ('read', 'write'):
+                    glob = GLOBAL_CANARY + '%s[] A = [%s];\n' % (el, ', '.join([zero_] * n))
+                    pre = 'byte bi = i is byte; byte[] bidx = [i is byte, 1];'
+                    tgt = 'A[%s]' % ixf
+                    stmt = (show % tgt) if form == 'read' else '%s = %s; %s' % (tgt, {'int': '9', 'byte': "'9'", 'bool': 'true'}[el], show % tgt)
+                    src = '%s\nempty @is_you(int i) {\n  %s\n  %s\n  write(\'B\');\n  %s\n  %s\n}\n' % (glob, CANARY_DECL, pre, stmt, CANARY_SHOW)
+                    out.append(('index:big%d:%s:%s:%s' % (n, el, form, ixf), src, lambda i: [i]))
     # strings
     for stg in ('literal', 'local', 'global', 'argv', 'param', 'element', 'as_bytes'):
         for form in ('read', 'cond', 'arg'):
@@ -272,10 +283,17 @@ def preempt_probes():
     }
     for bname, b in bodies.items():
         for handler in ('undo', 'stop'):
-            for later in ('defeat', 'cond_defeat', 'none', 'call_defeat'):
-                glob = GLOBAL_CANARY + 'empty !pre(int x) { write(\'f\'); %s }\nempty !plain(int x) { !truth_is_defeat(x > 0); }\n' % b
-                after = {'defeat': '!is_defeat();', 'cond_defeat': '!truth_is_defeat(d > 0);', 'none': '', 'call_defeat': '!plain(d);'}[later]
+            for later in ('defeat', 'cond_defeat', 'none', 'call_defeat', 'plain_then_defeat', 'plain_first'):
+                glob = GLOBAL_CANARY + ('empty !pre(int x) { write(\'f\'); %s }\nempty !plain(int x) { !truth_is_defeat(x > 0); }\n'
+                                        'empty !quiet(int x) { write(\'q\'); }\n' % b)
+                # plain_then_defeat: a defeat function *without* preempt, generated after the preemptive one, returns into
+                # unavoidable defeat - that is legal and must not raise nonlocal_preempt; plain_first: the other generation order
+                after = {'defeat': '!is_defeat();', 'cond_defeat': '!truth_is_defeat(d > 0);', 'none': '', 'call_defeat': '!plain(d);',
+                         'plain_then_defeat': '!quiet(d); !truth_is_defeat(d > 0);', 'plain_first': ''}[later]
                 stmt = "try { write('1'); !pre(d); write('2'); %s write('3'); } %s { write('H'); }" % (after, handler)
+                if later == 'plain_first':
+                    stmt = "try { write('0'); !quiet(d); write('1'); !truth_is_defeat(d > 5); write('2'); } %s { write('h'); } " % handler + \
+                        "try { write('1'); !pre(d); write('2'); !quiet(d); !truth_is_defeat(d > 0); write('3'); } %s { write('H'); }" % handler
                 src = '%s\nempty @is_you(int d) {\n  %s\n  write(\'B\');\n  %s\n  %s\n}\n' % (glob, CANARY_DECL, stmt, CANARY_SHOW)
                 out.append(('preempt:%s:%s:%s' % (bname, handler, later), src, lambda d: [d]))
     return out
@@ -285,7 +303,7 @@ def grid(kind, ws):
     hi = (1 << (8 * ws - 1)) - 1
     lo = -hi - 1
     if kind.startswith(('index', 'strindex')):
-        return [-1, 0, 1, L - 1, L, L + 1, hi, lo, -L, 255, 256, hi - 1, lo + 1, 256 + L - 1, 256 + L, -256, -254]
+        return [-1, 0, 1, L - 1, L, L + 1, hi, lo, -L, 254, 255, 256, 257, hi - 1, lo + 1, 256 + L - 1, 256 + L, -256, -254, 511, 512]
     if kind.startswith('cdiv'):
         return [0, 1, -1, 100, hi, lo]
     if kind.startswith('div'):
@@ -299,6 +317,9 @@ def grid(kind, ws):
 
 def near_boundary(kind, v, ws):
     hi = (1 << (8 * ws - 1)) - 1
+    if kind.startswith('index:big'):
+        n = int(kind.split(':')[1][3:])
+        return v in (-1, 0, n - 1, n, n + 1, 255, 256)
     if kind.startswith(('index', 'strindex')):
         return v in (-1, 0, L - 1, L, L + 1)
     if kind.startswith('div'):
